@@ -53,6 +53,9 @@ type extCfg struct {
 func extParams(cfg extCfg) *ext4.Params {
 	p := &ext4.Params{SectorsPerBlock: uint8(cfg.SPB), Checksum: cfg.Checksum, VolumeName: "verif"}
 	p.Features = append(p.Features, ext4.WithFeatureHasJournal(cfg.Journal))
+	if cfg.Checksum { // Params.Checksum is not consulted by Create; the feature option is what turns metadata_csum on
+		p.Features = append(p.Features, ext4.WithFeatureMetadataChecksums(true))
+	}
 	for _, f := range strings.Split(cfg.Extra, ",") {
 		switch f {
 		case "no64bit":
@@ -434,6 +437,34 @@ func (r *extRun) do(op extOp) map[string]any {
 					err = fmt.Errorf("cannot remove temporary %s: %v", nm, e)
 				}
 			}
+		case "Churn2":
+			// K files with 200-character names and one block of data each, created in turn (so
+			// that the directory's blocks and the files' blocks interleave and the directory
+			// collects many separate extents), then removed newest first
+			dir := ""
+			if op.P == "d" {
+				dir = extNames["d"] + "/"
+			}
+			var made []string
+			for i := 0; i < op.K; i++ {
+				nm := fmt.Sprintf("%s%s-%05d.tmp", dir, strings.Repeat("n", 200), i)
+				f, e := fs.OpenFile(nm, os.O_CREATE|os.O_RDWR)
+				if e != nil {
+					break
+				}
+				f.Write(r.content(7, 0, r.B))
+				f.Close()
+				made = append(made, nm)
+			}
+			for i := len(made) - 1; i >= 0; i-- {
+				if _, e := fs.ReadDir(strings.TrimSuffix(dirOrDot(dir), "/")); e != nil {
+					err = fmt.Errorf("directory unreadable while %d temporary files remain: %v", i+1, e)
+					break
+				}
+				if e := fs.Remove(made[i]); e != nil {
+					err = fmt.Errorf("cannot remove temporary %s: %v", made[i][len(made[i])-12:], e)
+				}
+			}
 		case "BigFile":
 			bigok, err = r.bigFile(op.K)
 		case "Debugfs":
@@ -583,6 +614,13 @@ func (r *extRun) debugfsCompare() (bool, error) {
 		}
 	}
 	return ok, firstErr
+}
+
+func dirOrDot(d string) string {
+	if d == "" {
+		return "."
+	}
+	return d
 }
 
 func extExec(cfg extCfg, ops []extOp) ([]map[string]any, error) {
